@@ -7,6 +7,7 @@
 (*   [m |-> "call", k]    the k-th call to write fails (k = 0: never)      *)
 (*   [m |-> "budget", k]  it accepts k bytes in total, then a short write  *)
 (*                        and an error                                     *)
+(*   [m |-> "chunk", k]   it never fails but takes at most k bytes per call *)
 (* Run(ws, f) is what a correct engine leaves behind: the bytes accepted   *)
 (* (a prefix of the full output), whether the render returns Ok, and how   *)
 (* many write calls the writer saw.                                        *)
@@ -19,7 +20,9 @@ Total(ws) == Sum(ws, Len(ws))
 RECURSIVE FirstOver(_, _, _)
 FirstOver(ws, k, i) == IF i > Len(ws) THEN 0 ELSE IF Sum(ws, i) > k THEN i ELSE FirstOver(ws, k, i + 1)
 Run(ws, f) ==
-  IF f.m = "call" THEN
+  \* a writer that accepts at most k bytes per call and never fails is a correct writer: everything arrives
+  IF f.m = "chunk" THEN [ok |-> TRUE, accepted |-> Total(ws)]
+  ELSE IF f.m = "call" THEN
     IF f.k = 0 \/ f.k > Len(ws) THEN [ok |-> TRUE, accepted |-> Total(ws)]
     ELSE [ok |-> FALSE, accepted |-> Sum(ws, f.k - 1)]                 \* everything before the failing call, nothing after
   ELSE
